@@ -132,12 +132,13 @@ def describe(case):
     return "%s %s%s %s" % (family, seed, "" if mut is None else " " + repr(tuple(mut)), "" if variant is None else repr(tuple(variant)))
 
 
-def judge(acc: Acc, flavour, case, obs, replay):
+def judge(acc: Acc, flavour, case, obs, replay, sub=False):
     """Merge what the child saw with what only the parent can see (death, hang, growth)."""
     site = H.site_of(case)
     fl = "" if flavour == "rust" else "[%s]" % flavour
-    acc.count("cases")
-    acc.count("cases:" + case[0])
+    acc.count("attribution_reruns" if sub else "cases")
+    if not sub:
+        acc.count("cases:" + case[0])
     if obs.kind == "skipped":
         acc.count("skipped_after_timeouts")
         acc.outcome("%s:skipped-after-timeouts" % site)
@@ -178,18 +179,19 @@ def per_op_cases(case):
     return None
 
 
-def evaluate(acc: Acc, flavour, cases, depth=0):
+def evaluate(acc: Acc, flavour, cases, depth=0, attack=False):
     p = pool(flavour)
-    res = p.map_observe(CASE, cases, **OPTS)
+    opts = dict(OPTS)
+    if attack or depth:
+        opts.pop("max_timeouts")  # the circuit breaker is for thousands of similar mutants, not for distinct attacks
+    res = p.map_observe(CASE, cases, **opts)
     for case, obs in zip(cases, res):
         replay = rp(case_one, flavour, list(case))
-        pred = judge(acc, flavour, case, obs, replay)
+        pred = judge(acc, flavour, case, obs, replay, sub=depth > 0)
         if pred in (None, "skipped"):
             continue
         sub = per_op_cases(case) if depth == 0 else None
         if sub:
-            acc.count("cases", -1)
-            acc.count("cases:" + case[0], -1)
             evaluate(acc, flavour, sub, depth + 1)
             continue
         acc.violation("%s:%s:%s" % (H.site_of(case), pred, input_class(case)),
@@ -199,7 +201,7 @@ def evaluate(acc: Acc, flavour, cases, depth=0):
 def case_one(acc: Acc, flavour, case):
     """Replay entry: one case in a fresh sandbox worker."""
     case = (case[0], case[1], tuple(case[2]) if case[2] is not None else None, _tup(case[3]))
-    evaluate(acc, flavour, [case])
+    evaluate(acc, flavour, [case], attack=True)
 
 
 def _tup(v):
@@ -280,15 +282,19 @@ def build_tasks(ctx):
         f = S["files"][seed]
         fam = FAMILY_OF[seed.split(".")[0]]
         fls = both if (not q or fam in ("pair", "loose")) else ("rust",)
-        if not f["targets"]:  # crafted, complete artefacts
-            add("%s:attacks" % fam, both, [(fam, seed, None, (None, None))])
+        if not f["targets"]:  # crafted, complete artefacts: one case per operation (a bomb per operation, not per case)
+            ops = {"pair": H.PAIR_OPS, "loose": H.LOOSE_OPS}[fam]
+            add("%s:attacks" % fam, both, [(fam, seed, None, (None, (op,))) for op in ops])
             continue
+        if q and seed in ("cgraph.git", "midx.git", "bitmap.git"):
+            continue  # quick: the dulwich-written variant only
         add("%s:%s" % (fam, seed), fls, [(fam, seed, None, (None, None))])
         for target, rel in sorted(f["targets"].items()):
             data = f["dir"][rel]
             if q and fam == "pair" and target == "idx" and seed != "pair.v2":
                 continue  # quick: the idx of one version only (v1/v3 differ in header and layout; thorough does all)
-            add("%s:%s" % (fam, seed), fls, [(fam, seed, m, (target, None)) for m in file_muts(data)])
+            tf = ("rust",) if (q and fam == "pair" and target == "idx") else fls
+            add("%s:%s" % (fam, seed), tf, [(fam, seed, m, (target, None)) for m in file_muts(data)])
     return groups, bounds
 
 
@@ -296,8 +302,12 @@ def work(task):
     """One unit: a slice of one group in one flavour.  Harness failures travel home in the Acc."""
     acc = Acc()
     try:
+        import time
+
         name, flavour, cases = task
-        evaluate(acc, flavour, cases)
+        t = time.time()
+        evaluate(acc, flavour, cases, attack="attacks" in name)
+        acc.count("wall_ms:%s[%s]" % (name, flavour), int((time.time() - t) * 1000))
     except Exception as e:
         import traceback
 
@@ -337,6 +347,7 @@ def _fault_op(path, seed, fr):
     import tempfile
 
     S = seeds()
+    H.local_setup(S, scratch_root())
     st = S["streams"][seed]
 
     def op(root):
@@ -512,7 +523,7 @@ def run(ctx):
     groups, bounds = build_tasks(ctx)
     tasks = []
     for name, fl, cases in groups:
-        n = max(1, len(cases) // 600)
+        n = max(1, len(cases) // (3 if "attacks" in name else 600))
         for part in (cases[i::n] for i in range(n)):
             if part:
                 tasks.append((name, fl, part))
